@@ -25,6 +25,8 @@ def run(ck, progs):
     ck.rule("C02.5", "both anti-message matchers compare the same identifying fields (sender word and sequence number)")
     ck.rule("C02.6", "a remotely cancelled buffer is released only through the at-GVT list (the non-blocking send may still read it)")
     ck.rule("C02.7", "events and anti-messages are routed with lid_to_nid of the destination LP")
+    ck.rule("C02.8", "both anti-message matchers search exhaustively: an anti-message is declared early (and an event declared not cancelled) only "
+                     "when the end of the list was reached; nothing but the end-of-list test and the identity tests decides that outcome")
     for cfg, P in progs.items():
         _sizes(ck, P, cfg)
         _prefix(ck, P, cfg)
@@ -32,6 +34,7 @@ def run(ck, progs):
         rules_gvt.check_receive_kind(ck, P, "C02.3")
         _ids(ck, P, cfg)
         _matchers(ck, P, cfg)
+        _exhaustive(ck, P, cfg)
         rules_msg.check_deferred_free(ck, P, "C02.6")
         rules_part.check_routing_users(Renamed(ck, {}), P, "C02.7")
 
@@ -224,6 +227,112 @@ def _ids(ck, P, cfg):
         ck.holds("C02.4", "id:sequence", snd.where, "m_seq = (per-destination counter << 1) | colour", cfg)
     else:
         ck.violated("C02.4", "id:sequence", snd.where, "m_seq is %s for counter 5 / colour 1: sequence numbers of the two colours can collide" % o[0].env.get("%s->m_seq" % m), cfg)
+
+
+MATCH_NAMES = {"raw_flags", "flags", "m_seq"}
+
+
+def _cond_names(f, core):
+    """(fields and globals read, unresolved locals, calls) of a branch condition; single-definition locals are seen through."""
+    fields, locs, calls = set(), set(), set()
+    todo, seen = [core], set()
+    while todo:
+        n = todo.pop()
+        for x in n.walk():
+            if x.k == "DeclRefExpr" and x.d.get("sc") in ("local", "param") and x.d.get("dk") == "var":
+                if x.did in seen:
+                    continue
+                seen.add(x.did)
+                r = Q.resolve_local(f, x) if x.d.get("sc") == "local" else None
+                if r is not None and not (r.k == "DeclRefExpr" and r.did == x.did):
+                    todo.append(r)
+                else:
+                    locs.add(x.name)
+            elif x.k == "DeclRefExpr" and x.d.get("dk") == "var":
+                fields.add(x.name)
+            elif x.k == "MemberExpr" and x.name:
+                fields.add(x.name)
+            elif x.k == "CallExpr" and x.callee:
+                calls.add(x.callee)
+    return fields, locs, calls
+
+
+def _exhaustive(ck, P, cfg):
+    # (function, the statement that records "not found", what it means)
+    h = P.fn("handle_remote_anti_msg")
+    pub = [n for n in h.walk() if n.k == "BinaryOperator" and n.op == "=" and X.show(n.children[0]).endswith("early_antis")]
+    c = P.fn("check_early_anti_messages")
+    notfound = [r for r in c.walk() if r.k == "ReturnStmt" and r.children and X.const_int(r.children[0]) == 0]
+    ck.expect("C02.8", len(pub) + len(notfound), 2, "not-found outcomes of the two matchers")
+    for f, outs, inst, cursors, what in ((h, pub, "exhaustive@handle_remote_anti_msg", None, "the anti-message is put on the early list"),
+                                         (c, notfound, "exhaustive@check_early_anti_messages", None, "the event is declared not cancelled")):
+        for o in outs:
+            bad = None
+            n_dec = 0
+            work = [o]
+            done = set()
+            while work:
+                tgt = work.pop()
+                if tgt.id in done:
+                    continue
+                done.add(tgt.id)
+                for core, B in Q.deciding_branches(f, tgt):
+                    n_dec += 1
+                    fields, locs, calls = _cond_names(f, core)
+                    extra_fields = {x for x in fields if x not in MATCH_NAMES and x not in ("next", "early_antis", "p_msgs", "count", "items", "p")}
+                    extra_calls = {x for x in calls if x not in ("is_msg_sent", "__builtin_expect")}
+                    extra_locs = set()
+                    for x in locs:
+                        if _is_cursor(f, x):
+                            continue
+                        sets = _flag_sets(f, x)
+                        if sets is None:
+                            extra_locs.add(x)
+                        else:
+                            work.extend(sets)      # a found / done flag: what decides its assignments decides the outcome
+                    if extra_fields or extra_calls or extra_locs:
+                        bad = bad or (core, sorted(extra_fields | extra_calls | extra_locs))
+            if bad:
+                ck.violated("C02.8", inst, bad[0].where, "%s when `%s` (reads %s): the search stops before every entry was compared, so an anti-message whose event is "
+                            "further down the list never cancels it" % (what, X.show(bad[0])[:90], ", ".join(bad[1])), cfg)
+            elif not n_dec:
+                ck.inconclusive("C02.8", inst, o.where, "no branch decides the not-found outcome", cfg)
+            else:
+                ck.holds("C02.8", inst, o.where, "%s only at the end of the list (%d deciding test(s): end of list and identity only)" % (what, n_dec), cfg)
+
+
+def _flag_sets(f, name):
+    """If the local `name` only ever holds constants (a found / done flag), the assignment statements other than its
+    initialiser; otherwise None."""
+    sets = []
+    for n in f.walk():
+        if n.k == "VarDecl" and n.name == name and n.sc != "param":
+            if n.children and X.const_int(n.children[-1]) is None:
+                return None
+        elif n.k == "BinaryOperator" and n.op == "=" and X.strip(n.children[0]).k == "DeclRefExpr" and X.strip(n.children[0]).name == name:
+            if X.const_int(n.children[1]) is None:
+                return None
+            sets.append(n)
+        elif n.k in ("UnaryOperator", "CompoundAssignOperator") and n.children and X.strip(n.children[0]).k == "DeclRefExpr" and X.strip(n.children[0]).name == name and (n.k == "CompoundAssignOperator" or n.op in ("++", "--", "&")):
+            return None
+    return sets
+
+
+def _is_cursor(f, name):
+    """A local that the function steps through the list with: an index used to address the list's elements, or a pointer
+    (re)assigned from a `next` link / the list head / an element."""
+    for n in f.walk():
+        if n.k == "ArraySubscriptExpr" and any(x.k == "DeclRefExpr" and x.name == name for x in n.children[1].walk()):
+            return True
+        if n.k == "BinaryOperator" and n.op == "=" and X.strip(n.children[0]).k == "DeclRefExpr" and X.strip(n.children[0]).name == name:
+            rhs = X.show(n.children[1])
+            if "next" in rhs or "prev_p" in rhs or "items" in rhs:
+                return True
+        if n.k == "VarDecl" and n.name == name and n.children and n.sc != "param":
+            rhs = X.show(n.children[-1])
+            if "prev_p" in rhs or "early_antis" in rhs or "items" in rhs:
+                return True
+    return name in ("msg", "a_msg", "lp", "proc_p")
 
 
 def _matchers(ck, P, cfg):
